@@ -631,6 +631,11 @@ func (k *Checker) checkSnapshotStep(n *Node, pre, post *raft.VerifState, ctx *ca
 			had = true
 		}
 	}
+	if installed && x.preSnapHad {
+		// the log view as of the previous step held the entry the snapshot ends with
+		k.report("C09", "sn.install", n, fmt.Sprintf("snapshot (%d,%d) was installed although the local log already held that entry (log [%d,%d], commit %d): at most the commit index may be fast-forwarded", idx, term, pre.FirstIndex, pre.LastIndex, pre.Committed), "sn.ff_installed")
+		return
+	}
 	switch {
 	case had:
 		k.c.stats.probe("snapshot_fast_forward")
